@@ -164,6 +164,17 @@ impl Monitor for C02 {
                                         v.truncate = false;
                                     }
                                 }
+                                // envelope S8: the minting invariant is only accurate to a few units (integer
+                                // Newton), so the mint can exceed the exact growth by those few units
+                                if v.finding.is_none() {
+                                    let lhs = big(minted) * &d0 / big(s0.max(1));
+                                    let grow = if d1 > d0 { &d1 - &d0 } else { BigUint::zero() };
+                                    let excess = if lhs > grow { (&lhs - &grow) / &r } else { BigUint::zero() };
+                                    if excess <= big(32) {
+                                        v.finding = Some("S8-mint-d-accuracy".into());
+                                        v.truncate = false;
+                                    }
+                                }
                                 // the internal swap of a single-asset deposit inherits S6: its output
                                 // is rounded in the depositor's favour by at most one smallest unit of
                                 // the other asset, so the excess (in invariant units) is bounded by that
